@@ -57,10 +57,12 @@ type RetryOpts struct {
 	NoDisconnect        bool   `json:"noDisconnect,omitempty"`
 	DirectQoS0          bool   `json:"directQoS0,omitempty"`
 	HookEvents          bool   `json:"hookEvents,omitempty"`
-	GrantCap            *int   `json:"grantCap,omitempty"`       // the broker grants at most this QoS in SUBACK
-	GrantCode           *int   `json:"grantCode,omitempty"`      // every SUBACK return code is this byte
-	MaxPayload          int    `json:"maxPayload,omitempty"`     // MaxPayloadLen of every base client
-	KeepAliveSec        int    `json:"keepAliveSec,omitempty"`   // ConnectOption WithKeepAlive
+	GrantCap            *int   `json:"grantCap,omitempty"`     // the broker grants at most this QoS in SUBACK
+	GrantCode           *int   `json:"grantCode,omitempty"`    // every SUBACK return code is this byte
+	MaxPayload          int    `json:"maxPayload,omitempty"`   // MaxPayloadLen of every base client
+	KeepAliveSec        int    `json:"keepAliveSec,omitempty"` // ConnectOption WithKeepAlive
+	ManualSwitch        string `json:"manualSwitch,omitempty"` // the scripted make-before-break run of manual.go ("handleFirst" | "handleAfter")
+	ManualQoS           int    `json:"manualQoS,omitempty"`
 	PromptAcks          bool   `json:"promptAcks,omitempty"`     // Write returns only after the client's reader consumed the broker's answer
 	HoldLoopWakeMs      int    `json:"holdLoopWakeMs,omitempty"` // delay the reconnect loop when it wakes up (hook reconnLoopWake): the keep-alive goroutine goes first
 	SampleAfterMs       int    `json:"sampleAfterMs,omitempty"`
@@ -95,6 +97,9 @@ func runRetryRaw(raw json.RawMessage) interface{} {
 	var sc RetryScenario
 	if err := json.Unmarshal(raw, &sc); err != nil {
 		return map[string]string{"id": "?", "infra": "bad scenario: " + err.Error()}
+	}
+	if sc.Opts.ManualSwitch != "" {
+		return runManualSwitch(&sc)
 	}
 	return runRetry(&sc)
 }
